@@ -47,7 +47,7 @@ def cli_part(tier, res):
     rel = ('rename', 'renameH', 'orig', 'viaold', 'createB', 'renameonto')
     space = tq.enumerate_series(3, 1, allow_after_failure=1) if tier == 'quick' else tq.enumerate_series(3, 2, allow_after_failure=1)
     series = [s for s in space if wsweep.tags_of(s) & set(rel) and len(s) >= 2]
-    series = series[::3] if tier == 'quick' else series[::5]   # every 3rd / 5th series of the filtered space (the spaces are 3.6 k / 92 k series)
+    series = series[::3] if tier == 'quick' else series[::12]   # every 3rd / 12th series of the filtered space (the spaces are 3.6 k / 92 k series)
     tasks = [(m0, s, n) for s in series for n in ((2, 3) if tier == 'quick' else (2, 3, 4))]
     runs = multi = 0
     for t, r in zip(tasks, wsweep.pmap(cli_case, tasks)):
